@@ -38,7 +38,7 @@ from qiskit_addon_cutting import (
     reconstruct_expectation_values, OptimizationParameters, DeviceConstraints,
 )
 from qiskit_addon_cutting.cutting_decomposition import partition_circuit_qubits, cut_gates
-from qiskit_addon_cutting.instructions import CutWire, Move
+from qiskit_addon_cutting.instructions import CutWire
 from qiskit_addon_cutting.qpd import QPDBasis, TwoQubitQPDGate, SingleQubitQPDGate, decompose_qpd_instructions
 from qiskit_addon_cutting.qpd.instructions import BaseQPDGate
 from qiskit_addon_cutting.utils.observable_grouping import ObservableCollection
@@ -428,6 +428,11 @@ class HeapBuilder:
 LABEL_POOL = ["A", "B", "C", 0, 1, "foo", (1, 2)]
 GATE_CLS = {"cx": CXGate, "rzz": RZZGate, "rzx": RZXGate, "swap": SwapGate, "cz": CZGate, "ryy": RYYGate, "crx": CRXGate}
 CUTTABLE = set(GATE_CLS)
+# C16_UNITARY=1 (opt-in, see the report): also put UnitaryGate instructions into INPUT circuits.  QuantumCircuit.copy()
+# shares their matrix array between the copy and the original, which the heap model does not represent, so these
+# cases are reported as an alias of kind "other" by every copying entry point.
+WITH_UNITARY = os.environ.get("C16_UNITARY") == "1"
+GATE_CLS["unitary"] = lambda: __import__("qiskit.circuit.library", fromlist=["UnitaryGate"]).UnitaryGate(np.eye(4))
 BIG_SRC = ["swap", "rzx", "ryy", "crx"]       # bases with non-singleton gate objects (and 58 maps for swap / rzx)
 SMALL_SRC = ["cx", "rzz", "cz"]               # 6-map bases of singleton gates only
 
@@ -464,6 +469,8 @@ def rand_desc(rng, nq, ngates, p_pre=0.3, p_py=0.2, p_cw=0.0, barriers=True, src
                 last_pre = len(ops) - 1
         elif r < p_pre + p_py:
             name = ["rzx", "rzz"][int(rng.integers(0, 2))]
+            if WITH_UNITARY and rng.random() < 0.5:
+                name = "unitary"
             ops.append(dict(g=name, q=[a, b], p=_params_for(name, rng), py=True))
         else:
             name = ["cx", "rzz", "swap"][int(rng.integers(0, 3))]
@@ -535,7 +542,7 @@ def sides_of(qc, labels):
 
 
 def two_q_plain_ids(qc):
-    return [k for k, i in enumerate(qc.data) if len(i.qubits) == 2 and i.operation.name in CUTTABLE]
+    return [k for k, i in enumerate(qc.data) if len(i.qubits) == 2 and i.operation.name in CUTTABLE and i.operation.name != "unitary"]
 
 
 # ----------------------------------------------------------------------------------------------
@@ -554,9 +561,10 @@ def examine(inputs, call, outs_of, inplace, fresh_inputs=None):
     except ValueError as e:
         raise Refusal(str(e)[:200])
     changed = snap(inputs) != s0
+    changed_other = snap(inputs[1:]) != s0[1][1:]      # any argument besides the first (the circuit) modified
     w1 = walk(outs_of(out1))
     io = alias_roots(win, w1)
-    rec = dict(changed=changed, io=kind_counts(io), io_roots=io)
+    rec = dict(changed=changed, changed_other=changed_other, io=kind_counts(io), io_roots=io)
     if inplace:
         rec.update(oo=[0] * len(KINDS), oo_roots=[], edits=0, edit_hits_inputs=False, edit_hits_earlier=False,
                    later_call_changed=False, later_call_error=None, result_is_arg=(outs_of(out1)[0] is inputs[0]))
@@ -754,7 +762,7 @@ def run_entry(entry, inplace, d, w=None):
 
 def record_json(entry, inplace, d, lit, rec, cls, tag):
     return dict(entry=entry, inplace=inplace, known_class=tag, detected_class=cls, desc=d, call=lit,
-                changed=rec["changed"], io=rec["io"], oo=rec["oo"],
+                changed=rec["changed"], changed_other=rec["changed_other"], io=rec["io"], oo=rec["oo"],
                 io_roots=[[k, getattr(o, "name", type(o).__name__)] for k, o in rec["io_roots"]][:12],
                 oo_roots=[[k, getattr(o, "name", type(o).__name__)] for k, o in rec["oo_roots"]][:12],
                 edits=rec["edits"], edit_hits_inputs=rec["edit_hits_inputs"], edit_hits_earlier=rec["edit_hits_earlier"],
@@ -798,6 +806,7 @@ class Gen:
 
 def generate(rng, tier, outdir):
     w = CaseWriter(outdir, IMPORTS, case_types={"chk_rep": CASE_TY, "chk_cur": CASE_TY})
+    w.SHARD = 40          # the generate cases are heavy for vm_compute: keep the shards small so that they run in parallel
     known = known_classes()
     g = Gen(w, known)
     quick = tier == "quick"
@@ -914,7 +923,11 @@ def generate(rng, tier, outdir):
 def judge(case):
     problems = []
     if case.get("inplace"):
-        # an in-place call is documented to modify its circuit argument and to return it
+        # an in-place call is documented to modify its circuit argument and to return it; nothing else may change
+        if case.get("changed_other"):
+            problems.append("an argument other than the circuit was modified by the in-place call")
+        if case.get("result_is_arg") is False:
+            problems.append("the in-place call did not return its circuit argument")
         others = [k for k, n in zip(case["kinds"], case["io"]) if n and k != "circuit"]
         if others:
             problems.append(f"in-place result shares {others} with the arguments besides the circuit itself")
